@@ -1431,3 +1431,231 @@ Proof.
   destruct (db_get (KHash h) (life c earliest l)) as [[x|x]|] eqn:E; try discriminate.
   inversion H; subst. rewrite (life_sub c Hw Hnd earliest l _ _ E). reflexivity.
 Qed.
+
+(* ================================================================== transient failures of the node client *)
+(* a life tolerates its node: during catch-up (heights up to the node height at start) no height is fetched in vain more
+   than 10 times; the live loop (heights above) may fail any number of times *)
+Definition tolerable (L : slife) : Prop :=
+  forall h, h <= i_start (sl_inc L) -> (failures (sl_plan L) h <= startup_failure_threshold)%nat.
+
+Lemma gives_up_ready : forall fuel bl rs cnt, gives_up true bl rs cnt fuel = false.
+Proof.
+  induction fuel as [|f IH]; intros bl rs cnt; cbn [gives_up]; [reflexivity|].
+  destruct bl as [|[|] bl']; cbn [negb andb tl].
+  - destruct rs as [|[|] rs']; [reflexivity|apply IH|reflexivity].
+  - apply IH.
+  - destruct rs as [|[|] rs']; [reflexivity|apply IH|reflexivity].
+Qed.
+
+Lemma nfail_tl : forall l, (nfail (tl l) <= nfail l)%nat.
+Proof. intros [|[|] l]; unfold nfail; cbn; lia. Qed.
+
+Lemma gives_up_few : forall fuel ready bl rs cnt,
+  (cnt + nfail bl + nfail rs <= startup_failure_threshold)%nat -> gives_up ready bl rs cnt fuel = false.
+Proof.
+  unfold startup_failure_threshold.
+  induction fuel as [|f IH]; intros ready bl rs cnt H; cbn [gives_up]; [reflexivity|].
+  assert (Hrs : forall bl0, (nfail bl0 <= nfail bl)%nat ->
+    match rs with
+    | true :: rs' => if negb ready && (startup_failure_threshold <? S cnt)%nat then true else gives_up ready bl0 rs' (S cnt) f
+    | _ => false
+    end = false).
+  { intros bl0 Hbl0. destruct rs as [|[|] rs']; [reflexivity| |reflexivity].
+    unfold nfail in *. cbn [filter length] in H.
+    replace (startup_failure_threshold <? S cnt)%nat with false
+      by (symmetry; apply Nat.ltb_ge; unfold startup_failure_threshold; lia).
+    rewrite andb_false_r. apply IH. unfold nfail. lia. }
+  destruct bl as [|[|] bl'].
+  - apply (Hrs []). lia.
+  - unfold nfail in *. cbn [filter length] in H.
+    replace (startup_failure_threshold <? S cnt)%nat with false
+      by (symmetry; apply Nat.ltb_ge; unfold startup_failure_threshold; lia).
+    rewrite andb_false_r. apply IH. unfold nfail. lia.
+  - cbn [tl]. apply Hrs. unfold nfail. cbn. lia.
+Qed.
+
+Lemma skips_tolerated : forall start p i,
+  (start < i \/ (failures p i <= startup_failure_threshold)%nat) -> skips start p i = false.
+Proof.
+  intros start p i H. unfold skips, failures in *. destruct (plan_at p i) as [bl rs].
+  destruct H as [H|H].
+  - replace (start <? i) with true by (symmetry; apply Z.ltb_lt; exact H). apply gives_up_ready.
+  - apply gives_up_few. lia.
+Qed.
+
+(* without a give-up the loop is the plain indexing loop, cut at the kill point *)
+Lemma svc_run_noskip : forall c start p n d cur bud,
+  (forall i, cur < i <= cur + Z.of_nat n -> skips start p i = false) ->
+  svc_run c start p d cur bud n = index_from c d cur (Nat.min bud n).
+Proof.
+  intros c start p n. induction n as [|n IH]; intros d cur bud H.
+  - rewrite Nat.min_0_r. reflexivity.
+  - cbn [svc_run]. rewrite (H (cur + 1)) by lia.
+    destruct bud as [|bu].
+    + cbn [Nat.min index_from]. destruct (block_at c (cur + 1)); reflexivity.
+    + cbn [Nat.min index_from]. destruct (block_at c (cur + 1)) as [b|]; [|reflexivity].
+      apply IH. intros i Hi. apply H. lia.
+Qed.
+
+(* transient failures of the node client leave no trace in the index: the life writes exactly what the same life
+   writes over a node that always answers *)
+Theorem rpc_failures_invisible : forall c earliest d L, tolerable L -> sl_startfail L = false ->
+  run_slife c earliest d L = run_incarnation c earliest d (sl_inc L).
+Proof.
+  intros c earliest d L Ht Hs. unfold run_slife, run_incarnation. rewrite Hs.
+  apply svc_run_noskip. intros i Hi. apply skips_tolerated.
+  destruct (Z_lt_ge_dec (i_start (sl_inc L)) i) as [Hlt|Hge]; [left; exact Hlt|right; apply Ht; lia].
+Qed.
+
+(* ... in particular failures of the live loop alone (heights above the node height at start), however many *)
+Corollary live_loop_failures_invisible : forall c earliest d L,
+  (forall h, h <= i_start (sl_inc L) -> failures (sl_plan L) h = 0%nat) -> sl_startfail L = false ->
+  run_slife c earliest d L = run_incarnation c earliest d (sl_inc L).
+Proof.
+  intros c earliest d L H Hs. apply rpc_failures_invisible; [|exact Hs].
+  intros h Hh. rewrite (H h Hh). unfold startup_failure_threshold. lia.
+Qed.
+
+Lemma slife_inv : forall c earliest s0 l reached,
+  earliest <= 1 -> 0 <= s0 -> s0 <= reached -> reached <= Z.of_nat (length c) ->
+  (forall L, In L l -> tolerable L) ->
+  ssched_ok c earliest (index_range c [] s0 reached) reached l = true ->
+  exists reached', reached <= reached' <= Z.of_nat (length c) /\
+    fold_left (run_slife c earliest) l (index_range c [] s0 reached) = index_range c [] s0 reached' /\
+    (forall L, In L l -> sl_startfail L = false -> Z.of_nat (length c) <= Z.of_nat (i_kill (sl_inc L)) ->
+               i_end (sl_inc L) = Z.of_nat (length c) -> reached' = Z.of_nat (length c)).
+Proof.
+  intros c earliest s0 l. induction l as [|L l IH]; intros reached He H0 Hr Hn Htol Hok.
+  - exists reached. split; [lia|]. split; [reflexivity|intros L []].
+  - cbn [ssched_ok] in Hok. apply andb_true_iff in Hok as [Hend Hok]. apply Z.leb_le in Hend.
+    assert (HtolL : tolerable L) by (apply Htol; left; reflexivity).
+    assert (Htol' : forall L', In L' l -> tolerable L') by (intros L' HL'; apply Htol; right; exact HL').
+    cbn [fold_left]. destruct (sl_startfail L) eqn:Esf.
+    + (* the life failed to start: nothing read, nothing written *)
+      unfold run_slife at 2. rewrite Esf.
+      destruct (IH reached He H0 Hr Hn Htol' Hok) as [r2 [Hb2 [Heq2 Hfin]]].
+      exists r2. split; [lia|]. split; [exact Heq2|].
+      intros x [<-|Hx] Hsf Hk Hxe; [congruence|eapply Hfin; eauto].
+    + apply andb_true_iff in Hok as [Hok1 Hrest].
+      assert (Hcond : last_indexed (index_range c [] s0 reached) <> -1 \/ i_start (sl_inc L) = reached).
+      { apply orb_true_iff in Hok1 as [H|H].
+        - left. apply negb_true_iff, Z.eqb_neq in H. exact H.
+        - right. apply Z.eqb_eq in H. exact H. }
+      rewrite (rpc_failures_invisible c earliest _ L HtolL Esf) in *.
+      pose proof (incarnation_inv c earliest s0 reached (sl_inc L) He H0 Hr Hn Hcond Hend) as Hinv. cbn zeta in Hinv.
+      set (r1 := step_reached earliest (index_range c [] s0 reached) reached (sl_inc L)) in *.
+      destruct Hinv as [Heq [Hb Hcur0]]. rewrite Heq in *.
+      assert (Hr1a : s0 <= r1) by lia. assert (Hr1b : r1 <= Z.of_nat (length c)) by lia.
+      destruct (IH r1 He H0 Hr1a Hr1b Htol' Hrest) as [r2 [Hb2 [Heq2 Hfin]]].
+      exists r2. split; [lia|]. split; [exact Heq2|].
+      intros x [<-|Hx] Hsf Hk Hxe; [|eapply Hfin; eauto].
+      assert (r1 = Z.of_nat (length c)); [|lia].
+      unfold r1, step_reached in *.
+      set (cur := resume (index_range c [] s0 reached) (i_start (sl_inc L)) earliest) in *.
+      destruct (Z_le_gt_dec cur (Z.of_nat (length c))); lia.
+Qed.
+
+Theorem crash_converges_rpc : forall c earliest s0 l fin,
+  earliest <= 1 -> 0 <= s0 -> s0 <= Z.of_nat (length c) ->
+  (forall L, In L (l ++ [fin]) -> tolerable L) ->
+  ssched_ok c earliest [] s0 (l ++ [fin]) = true ->
+  sl_startfail fin = false ->
+  i_end (sl_inc fin) = Z.of_nat (length c) -> Z.of_nat (length c) <= Z.of_nat (i_kill (sl_inc fin)) ->
+  slife_run c earliest (l ++ [fin]) = run_from c s0.
+Proof.
+  intros c earliest s0 l fin He H0 Hn Htol Hok Hsf Hend Hk.
+  unfold slife_run. rewrite <- (index_range_nop c [] s0 s0) by lia.
+  rewrite <- (index_range_nop c [] s0 s0) in Hok by lia.
+  destruct (slife_inv c earliest s0 (l ++ [fin]) s0 He H0 ltac:(lia) Hn Htol Hok) as [r [Hb [Heq Hfin]]].
+  rewrite Heq. unfold run_from. f_equal. eapply Hfin; eauto. apply in_or_app. right. left. reflexivity.
+Qed.
+
+(* the old statement is the special case "the node always answers" *)
+Definition quiet_life (i : incarnation) : slife := SL i false [].
+
+Lemma quiet_life_run : forall c earliest d i, run_slife c earliest d (quiet_life i) = run_incarnation c earliest d i.
+Proof.
+  intros. apply rpc_failures_invisible; [|reflexivity].
+  intros h _. unfold failures, plan_at. cbn. unfold startup_failure_threshold. lia.
+Qed.
+
+(* the cursor never moves past a height that was not handed to IndexBlock, unless the start-up threshold was exceeded:
+   every block between the cursor and the end of a life that tolerates its node and is not killed is written *)
+Theorem no_height_skipped : forall c start p n d cur bud H b k v,
+  (forall i, cur < i <= cur + Z.of_nat n -> skips start p i = false) -> (n <= bud)%nat ->
+  0 <= cur -> cur < H <= cur + Z.of_nat n -> block_at c H = Some b -> In (k, v) (index_block H b) ->
+  db_get k (svc_run c start p d cur bud n) <> None.
+Proof.
+  intros c start p n. induction n as [|n IH]; intros d cur bud H b k v Hsk Hbud Hc HH Hb Hin; [lia|].
+  cbn [svc_run]. rewrite (Hsk (cur + 1)) by lia.
+  destruct (block_at c (cur + 1)) as [b1|] eqn:E1.
+  - destruct bud as [|bu]; [lia|].
+    destruct (Z.eq_dec H (cur + 1)) as [->|Hne].
+    + rewrite E1 in Hb. inversion Hb; subst b1.
+      rewrite svc_run_noskip by (intros i Hi; apply Hsk; lia).
+      assert (G : forall m a d0, db_get k d0 <> None -> db_get k (index_from c d0 a m) <> None).
+      { induction m as [|m IHm]; intros a d0 Hd0; cbn [index_from]; [exact Hd0|].
+        destruct (block_at c (a + 1)) as [b2|]; [|exact Hd0]. apply IHm.
+        unfold db_write. rewrite db_get_app. destruct (db_get k (rev (index_block (a + 1) b2))); [discriminate|exact Hd0]. }
+      apply G. unfold db_write. rewrite db_get_app.
+      destruct (in_db_get k v (rev (index_block (cur + 1) b))) as [v' Hv']; [apply in_rev in Hin; exact Hin|].
+      rewrite Hv'. discriminate.
+    + apply (IH _ (cur + 1) bu H b k v); try assumption; try lia. intros i Hi. apply Hsk. lia.
+  - exfalso. assert (block_at c (cur + 1 + (H - cur - 1)) = None) by (apply block_at_beyond; [lia|lia|exact E1]).
+    replace (cur + 1 + (H - cur - 1)) with H in * by lia. congruence.
+Qed.
+
+(* the full statement - no bound on the failures during catch-up - is FALSE of the faithful model: the 11th failed fetch of
+   a height while the indexer is not yet ready moves the cursor past it, the next block with an Ethereum transaction moves
+   the resume point past it, and no later restart returns to it *)
+Definition crash_converges_rpc_full : Prop := forall c earliest s0 l fin,
+  wf_chain c = true -> NoDup (chain_hashes c) ->
+  earliest <= 1 -> 0 <= s0 -> s0 <= Z.of_nat (length c) ->
+  ssched_ok c earliest [] s0 (l ++ [fin]) = true ->
+  sl_startfail fin = false ->
+  i_end (sl_inc fin) = Z.of_nat (length c) -> Z.of_nat (length c) <= Z.of_nat (i_kill (sl_inc fin)) ->
+  db_equiv (slife_run c earliest (l ++ [fin])) (run_from c s0).
+
+Definition wit_tx_at (hash height : Z) : txv :=
+  Tx true true true hash 21000 9 true [EvEth true; EvRc (Rc 0 height false 1 21000 21000 None 0 false)].
+Definition wit_chain3 : chain := [[wit_tx_at 7 1]; [wit_tx_at 8 2]; [wit_tx_at 9 3]].
+(* BlockResults(2) fails 11 times in a row (Block(2) answers every time) while the second life catches up from block 1 to 3 *)
+Definition wit_plan : list hplan := [HP 2 [] (repeat true 11)].
+
+Theorem crash_converges_rpc_refuted : ~ crash_converges_rpc_full.
+Proof.
+  intros Hf.
+  assert (Hnd : NoDup (chain_hashes wit_chain3)).
+  { apply nodupb_sound. vm_compute. reflexivity. }
+  specialize (Hf wit_chain3 1 0 [SL (Inc 0 1 9) false []] (SL (Inc 3 3 9) false wit_plan) eq_refl Hnd
+                 ltac:(lia) ltac:(lia) ltac:(cbn; lia) eq_refl eq_refl eq_refl ltac:(cbn; lia)).
+  specialize (Hf (KHash 8)). vm_compute in Hf. discriminate.
+Qed.
+
+(* safety under EVERY history, node failures included: the index only ever holds entries of the in-order index *)
+Lemma svc_run_sub : forall c, wf_chain c = true -> NoDup (chain_hashes c) ->
+  forall start p n d cur bud, sub d (run c) -> sub (svc_run c start p d cur bud n) (run c).
+Proof.
+  intros c Hw Hnd start p n. induction n as [|n IH]; intros d cur bud S; cbn [svc_run]; [exact S|].
+  destruct (skips start p (cur + 1)); [apply IH, S|].
+  destruct (block_at c (cur + 1)) as [b|] eqn:Hb; [|exact S].
+  destruct bud as [|bu]; [exact S|]. apply IH. apply write_sub; assumption.
+Qed.
+
+Theorem slife_sub : forall c, wf_chain c = true -> NoDup (chain_hashes c) ->
+  forall earliest l, sub (slife_run c earliest l) (run c).
+Proof.
+  intros c Hw Hnd earliest l. unfold slife_run.
+  assert (G : forall d, sub d (run c) -> sub (fold_left (run_slife c earliest) l d) (run c)).
+  { induction l as [|L l IH]; intros d S; [exact S|]. cbn [fold_left]. apply IH.
+    unfold run_slife. destruct (sl_startfail L); [exact S|]. apply svc_run_sub; assumption. }
+  apply G. intros k v H. discriminate.
+Qed.
+
+Theorem any_rpc_history_answers_are_real : forall c, wf_chain c = true -> NoDup (chain_hashes c) ->
+  forall earliest l h r, get_by_hash (slife_run c earliest l) h = Some r -> get_by_hash (run c) h = Some r.
+Proof.
+  intros c Hw Hnd earliest l h r H. unfold get_by_hash in *.
+  destruct (db_get (KHash h) (slife_run c earliest l)) as [[x|x]|] eqn:E; try discriminate.
+  inversion H; subst. rewrite (slife_sub c Hw Hnd earliest l _ _ E). reflexivity.
+Qed.
